@@ -12,7 +12,8 @@
    single byte, not a code point.  The model represents it as the pseudo rune
    raw_byte_base + value, so that it can never be confused with a code point;
    compared cases containing such a pseudo rune are compared by outcome class
-   only.  strconv.Quote never emits such escapes for valid UTF-8 strings. *)
+   only.  strconv.Quote emits \xNN (NN >= 80) exactly for the invalid bytes of
+   its argument (pseudo runes of the UTF-8 front end Text/Utf8.v). *)
 From Coq Require Import List NArith Bool.
 From Dials Require Import Base.Outcome Base.Runes Text.ParseInt.
 Import ListNotations.
@@ -27,6 +28,10 @@ Definition max_rune : N := 1114111.            (* 0x10FFFF *)
 Definition valid_rune (r : rune) : bool :=      (* utf8.ValidRune *)
   ((r <? 55296) || (57343 <? r)) && (r <=? max_rune).
 Definition raw_byte_base : N := 1114112.       (* 0x110000 + b : the byte b >= 0x80 *)
+
+(* a raw (invalid UTF-8) byte, see Text/Utf8.v *)
+Definition is_raw (r : rune) : bool := (raw_byte_base + 128 <=? r) && (r <? raw_byte_base + 256).
+Definition has_invalid (s : str) : bool := existsb is_raw s.
 
 Definition dquote : rune := 34.
 Definition bslash : rune := 92.
@@ -45,7 +50,8 @@ Definition hex8 (r : N) : str :=
 
 (* appendEscapedRune (quote.go:67-119) with quote = double quote, ASCIIonly = graphicOnly = false *)
 Definition esc_rune (isp : rune -> bool) (r : rune) : str :=
-  if (r =? dquote) || (r =? bslash) then [bslash; r]
+  if is_raw r then bslash :: 120 :: hex2 (r - raw_byte_base)      (* appendQuotedWith: width 1 RuneError *)
+  else if (r =? dquote) || (r =? bslash) then [bslash; r]
   else if isp r then [r]
   else if r =? 7 then [bslash; 97]
   else if r =? 8 then [bslash; 98]
@@ -90,7 +96,7 @@ Fixpoint unq_loop (s : str) (acc : str) : outcome (str * str) :=
   | c :: r =>
       if c =? dquote then Ok (acc, r)
       else if c =? 10 then Err e_unquote
-      else if negb (c =? bslash) then unq_loop r (acc ++ [c])
+      else if negb (c =? bslash) then unq_loop r (acc ++ [if is_raw c then 65533 else c])   (* DecodeRuneInString + AppendRune *)
       else
         match r with
         | [] => Err e_unquote
